@@ -303,7 +303,8 @@ def trCore (withObj : Bool) : P String := do
   let mut starSteps := 0
   -- clause 1 at λ = 0 (theorems control|eval|sarsal_lambda0_bounded): zero start, γ < 1, α ∈ (0,1], ε ∈ [0,1], target rows
   -- are distributions; the interval is the hull of the rewards seen so far
-  let isDistRows (rows : Rows) : Bool := rows.all (fun r => r.all (fun x => decide (0 ≤ x)) && r.foldl (· + ·) 0 == 1)
+  -- sub-stochastic rows suffice (theorem eval_lambda0_bounded_sub): the greedy policy objects sum to less than one on near-ties
+  let isDistRows (rows : Rows) : Bool := rows.all (fun r => r.all (fun x => decide (0 ≤ x)) && decide (r.foldl (· + ·) 0 ≤ 1))
   let bndClause := lamFamily && lam == 0 && init.all (fun r => r.all (· == 0)) && decide (0 ≤ γ) && decide (γ < 1)
     && decide (0 < α) && decide (α ≤ 1) && decide (0 ≤ ε) && decide (ε ≤ 1) && (!(L.startsWith "e-") || isDistRows πtR)
   let mut rlo : Rat := 0
